@@ -138,8 +138,62 @@ let pool_mode dbg inp outp =
   ) (read_lines inp);
   close_out oc
 
+(* ------------------------------------------------------------------ strlib *)
+let unhex s =
+  if s = "-" then [] else
+  List.init (String.length s / 2) (fun i -> z_of_int (int_of_string ("0x" ^ String.sub s (2 * i) 2)))
+
+let hex (l : z list) =
+  if l = [] then "-" else String.concat "" (List.map (fun b -> Printf.sprintf "%02x" (int_of_z b)) l)
+
+(* f64 text -> isize after floor, saturating; NaN -> 0 (Rust `as isize`) *)
+let isize_of_float_text t =
+  let f = float_of_string t in
+  if Float.is_nan f then 0
+  else let fl = Float.floor f in
+    if fl >= 4611686018427387903.0 then 4611686018427387903
+    else if fl <= -4611686018427387904.0 then -4611686018427387904
+    else int_of_float fl
+
+let strlib_mode inp outp =
+  let oc = open_out outp in
+  List.iter (fun line ->
+    match words line with
+    | [] -> ()
+    | "find" :: h :: n :: _ ->
+        (match find (unhex h) (unhex n) with
+         | Found i -> Printf.fprintf oc "found %d\n" (int_of_nat i)
+         | NotFound -> output_string oc "notfound\n"
+         | OutOfFuel -> output_string oc "MODEL-FUEL\n"
+         | IndexOob -> output_string oc "MODEL-OOB\n")
+    | "replace" :: h :: f :: t :: _ ->
+        (match replace (unhex h) (unhex f) (unhex t) with
+         | SOk s -> Printf.fprintf oc "str %s\n" (hex s)
+         | SFuel -> output_string oc "MODEL-FUEL\n"
+         | SOob -> output_string oc "MODEL-OOB\n")
+    | "split" :: s :: sep :: _ ->
+        Printf.fprintf oc "arr %s\n" (String.concat "," (List.map hex (split (unhex s) (unhex sep))))
+    | "splitjoin" :: s :: sep :: _ ->
+        Printf.fprintf oc "str %s\n" (hex (join (split (unhex s) (unhex sep)) (unhex sep)))
+    | "slice" :: s :: a :: b :: _ ->
+        Printf.fprintf oc "str %s\n" (hex (slice (unhex s) (z_of_int (isize_of_float_text a)) (z_of_int (isize_of_float_text b))))
+    | "len" :: s :: _ -> Printf.fprintf oc "num %d\n" (int_of_nat (str_len (unhex s)))
+    | "trim" :: s :: _ -> Printf.fprintf oc "str %s\n" (hex (trim (unhex s)))
+    | "ws" :: lo :: hi :: _ ->
+        let b = Buffer.create 64 in
+        Buffer.add_string b "ws";
+        for cp = int_of_string lo to int_of_string hi - 1 do
+          if not (cp >= 0xD800 && cp <= 0xDFFF) && is_whitespace (z_of_int cp) then
+            Buffer.add_string b (Printf.sprintf " %d" cp)
+        done;
+        Printf.fprintf oc "%s\n" (Buffer.contents b)
+    | w :: _ -> failwith ("unknown case " ^ w)
+  ) (read_lines inp);
+  close_out oc
+
 let () =
   match Array.to_list Sys.argv with
+  | _ :: "strlib" :: inp :: outp :: _ -> strlib_mode inp outp
   | _ :: "pool" :: dbg :: inp :: outp :: _ -> pool_mode (dbg = "1") inp outp
   | _ :: "bump" :: dbg :: inp :: outp :: _ -> bump_mode (dbg = "1") inp outp
   | _ -> prerr_endline "usage: nsmodel <mode> ..."; exit 2
